@@ -10,6 +10,7 @@ from __future__ import annotations
 import ast
 import hashlib
 import os
+import sys
 from dataclasses import dataclass, field
 from typing import Dict, Iterable, Iterator, List, Optional, Set, Tuple
 
@@ -1490,6 +1491,57 @@ class _SplitTupleAssign(ast.NodeTransformer):
         return [ast.copy_location(ast.Assign(targets=[t], value=v), n) for t, v in zip(ts, vs)]
 
 
+_CACHE_DIR = None
+_CACHE_SALT = None
+
+
+def _cache_dir():
+    global _CACHE_DIR, _CACHE_SALT
+    if _CACHE_DIR is None:
+        import tempfile
+        base = "/dev/shm" if os.path.isdir("/dev/shm") and os.access("/dev/shm", os.W_OK) else tempfile.gettempdir()
+        _CACHE_DIR = os.path.join(base, "pgfstatic-cache")
+        try:
+            os.makedirs(_CACHE_DIR, exist_ok=True)
+        except OSError:
+            _CACHE_DIR = ""
+        with open(os.path.abspath(__file__), "rb") as f:
+            _CACHE_SALT = hashlib.sha256(f.read() + sys.version.encode()).hexdigest()
+    return _CACHE_DIR
+
+
+def _cache_get(src: str):
+    if os.environ.get("PGF_NO_CACHE"):
+        return None
+    d = _cache_dir()
+    if not d:
+        return None
+    import pickle
+    p = os.path.join(d, hashlib.sha256((_CACHE_SALT + src).encode()).hexdigest() + ".pkl")
+    try:
+        with open(p, "rb") as f:
+            return pickle.load(f)
+    except Exception:
+        return None
+
+
+def _cache_put(src: str, tree) -> None:
+    if os.environ.get("PGF_NO_CACHE"):
+        return
+    d = _cache_dir()
+    if not d:
+        return
+    import pickle
+    p = os.path.join(d, hashlib.sha256((_CACHE_SALT + src).encode()).hexdigest() + ".pkl")
+    try:
+        tmp = p + f".{os.getpid()}.tmp"
+        with open(tmp, "wb") as f:
+            pickle.dump(tree, f, protocol=pickle.HIGHEST_PROTOCOL)
+        os.replace(tmp, p)
+    except Exception:
+        pass
+
+
 class Program:
     def __init__(self, repo: str = REPO):
         self.repo = repo
@@ -1675,25 +1727,29 @@ class Program:
                     src = f.read()
                 h.update(path.encode())
                 h.update(src.encode())
-                try:
-                    tree = ast.parse(src, filename=path)
-                except SyntaxError as e:
-                    raise AnalysisError(f"cannot parse {path}: {e}")
-                _iter_while_to_for(tree)
-                _inline_branch_flags(tree)
-                _minmax_idiom(tree)
-                _split_star_unpack(tree)
-                _unroll_literal_loops(tree)
-                _getattr_const(tree)
-                _ufunc_compare(tree)
-                _split_star_unpack(tree)
-                tree = _SplitTupleAssign().visit(tree)
-                _splat_literal_dicts(tree)
-                _splat_literal_tuples(tree)
-                _count_loops(tree)
-                _sink_returns(tree)
-                _bounded_flag_while(tree)
-                _unflag_loops(tree)
+                # the normalised tree of a file depends only on its text and on this module: kept in a scratch cache (rebuilt when absent)
+                tree = _cache_get(src)
+                if tree is None:
+                    try:
+                        tree = ast.parse(src, filename=path)
+                    except SyntaxError as e:
+                        raise AnalysisError(f"cannot parse {path}: {e}")
+                    _iter_while_to_for(tree)
+                    _inline_branch_flags(tree)
+                    _minmax_idiom(tree)
+                    _split_star_unpack(tree)
+                    _unroll_literal_loops(tree)
+                    _getattr_const(tree)
+                    _ufunc_compare(tree)
+                    _split_star_unpack(tree)
+                    tree = _SplitTupleAssign().visit(tree)
+                    _splat_literal_dicts(tree)
+                    _splat_literal_tuples(tree)
+                    _count_loops(tree)
+                    _sink_returns(tree)
+                    _bounded_flag_while(tree)
+                    _unflag_loops(tree)
+                    _cache_put(src, tree)
                 mod = Module(name, path, tree, src)
                 mod.is_pkg = fn == "__init__.py"
                 self.modules[name] = mod
